@@ -1,13 +1,26 @@
 #!/bin/sh
 # Build the framework from files on disk only (offline). Run once after a fresh restore.
+# Only the properties listed in meta/ENABLED (the ones claimed in MANIFEST.json) are built;
+# every property has its own factgen / oracle / harness binary (build tags fg_cxx, vh_cxx).
 set -e
 cd "$(dirname "$0")"
 export GOFLAGS=-mod=mod GOPROXY=off GOSUMDB=off GOTOOLCHAIN=local
+REPO="${VERIF_REPO:-/repo}"
 mkdir -p build/facts build/audit build/run evidence replays
-(cd tools/factgen && go build -tags fg_all -o ../../build/factgen-all .)
-./build/factgen-all -repo "${VERIF_REPO:-/repo}" -prop all -lean lean/EinoV/Gen -json build/facts
 ./tools/genlake.py
-(cd lean && lake build)
-cp "${VERIF_REPO:-/repo}/go.sum" harness/go.sum
-(cd harness && go build -tags verif,vh_all -o ../build/vh-all ./cmd/vh)
+cp "$REPO/go.sum" harness/go.sum
+TARGETS=""
+for P in $(cat meta/ENABLED); do
+  p=$(echo "$P" | tr 'A-Z' 'a-z')
+  (cd tools/factgen && go build -tags "fg_$p" -o "../../build/factgen-$P" .)
+  "./build/factgen-$P" -repo "$REPO" -prop "$P" -lean lean/EinoV/Gen -json build/facts
+  TARGETS="$TARGETS EinoV.Props.$P oracle_$P"
+done
+(cd lean && lake build $TARGETS)
+for P in $(cat meta/ENABLED); do
+  p=$(echo "$P" | tr 'A-Z' 'a-z')
+  RACE=""
+  if grep -q '"race": *true' "meta/$P.json" 2>/dev/null; then RACE="-race"; fi
+  (cd harness && go build $RACE -tags "verif,vh_$p" -o "../build/vh-$P$RACE" ./cmd/vh)
+done
 echo "setup ok"
